@@ -61,3 +61,54 @@ def build_crdt_timestamp_only(ws, mode, harness_files, name="crdt", features=())
     mounted.append(dcv.mount("datacake-crdt/src/timestamp.rs", os.path.join(d, "src/timestamp.rs"),
                              rewrites=rules, append=[os.path.join(ENC, h) for h in harness_files]))
     return d, mounted
+
+
+# ---------------------------------------------------------------------------------------------
+# datacake-crdt regenerated with the solver-friendly container models (M-rewrite of orswot.rs)
+
+ORSWOT_REWRITES = [
+    (r"^use std::collections::btree_map::Entry;$", "use crate::vcoll::btree_map::Entry;", 1),
+    (r"^use std::collections::\{BTreeMap, HashMap, HashSet\};$",
+     "use crate::vcoll::{BTreeMap, HashMap, HashSet, Vec};\nuse crate::vcoll_vec as vec;", 1),
+    (r"pub fn as_bytes\(&self\) -> Result<Vec<u8>, BadState>", "pub fn as_bytes(&self) -> Result<std::vec::Vec<u8>, BadState>", 1),
+]
+
+VCOLL_CFG = """// generated per run: container bounds of this encoding
+pub const KEYS: usize = {keys};
+pub const NODES: usize = {nodes};
+pub const DOM: usize = {dom};
+pub const VCAP: usize = {vcap};
+"""
+
+
+def build_crdt_vcoll(ws, mode, harness_files, keys, nodes, vcap=None, name="crdt", timestamp_harness=(), extra_unwind=0,
+                     features_decl="verif_replay = []"):
+    """The whole datacake-crdt crate: Cargo deps and lib.rs from /repo, timestamp.rs verbatim, orswot.rs with the
+    container import rewrites (solve mode) or verbatim (replay mode: std containers), harness modules appended."""
+    d = ws.path(name)
+    os.makedirs(os.path.join(d, "src"), exist_ok=True)
+    dom = max(keys, nodes)
+    vcap = vcap or 2 * keys
+    unwind = max(dom, vcap) + 2 + extra_unwind
+    dcv.write(os.path.join(d, "Cargo.toml"), CRDT_CARGO.format(deps=crdt_dependencies(), extra_features=features_decl))
+    lockfile(d)
+    mounted = []
+    extra_mods = "\n#[allow(dead_code)]\nmod vcoll_cfg;\n"
+    if mode == "solve":
+        extra_mods += "#[allow(dead_code)]\nmod vcoll;\n"
+    lib = dcv.mount("datacake-crdt/src/lib.rs", os.path.join(d, "src/lib.rs"))
+    with open(os.path.join(d, "src/lib.rs"), "a") as f:
+        f.write("\n// ---- appended by /verif ----" + extra_mods)
+    mounted.append(lib)
+    dcv.write(os.path.join(d, "src/vcoll_cfg.rs"), VCOLL_CFG.format(keys=keys, nodes=nodes, dom=dom, vcap=vcap))
+    if mode == "solve":
+        import shutil
+        shutil.copy(os.path.join(ENC, "vcoll.rs"), os.path.join(d, "src/vcoll.rs"))
+    ts_rules = [REPLAY_CLOCK_RULE] if (mode == "replay" and timestamp_harness) else []
+    mounted.append(dcv.mount("datacake-crdt/src/timestamp.rs", os.path.join(d, "src/timestamp.rs"), rewrites=ts_rules,
+                             append=[os.path.join(ENC, h) for h in timestamp_harness]))
+    rules = ORSWOT_REWRITES if mode == "solve" else []
+    mounted.append(dcv.mount("datacake-crdt/src/orswot.rs", os.path.join(d, "src/orswot.rs"), rewrites=rules,
+                             append=[os.path.join(ENC, h) for h in harness_files],
+                             subst={"@@UNWIND@@": unwind}))
+    return d, mounted, {"KEYS": keys, "NODES": nodes, "DOM": dom, "VCAP": vcap, "unwind": unwind}
